@@ -100,7 +100,12 @@ fn classify<T>(r: Result<AvroResult<T>, crate::panics::PanicInfo>) -> String {
         Ok(Ok(_)) => "ok".into(),
         Ok(Err(e)) => {
             let k = err_kind(&e);
-            if k.starts_with("Unable-to-allocate") { "limit".into() } else { format!("other:{k}") }
+            let m = e.to_string();
+            if m.contains("Unable to allocate") || m.contains("Allocation limit") || k.starts_with("Allocation-limit") {
+                "limit".into()
+            } else {
+                format!("other:{k}")
+            }
         }
     }
 }
@@ -210,6 +215,9 @@ pub fn run(plan_path: &str) -> i32 {
     };
     #[cfg(not(feature = "hooks"))]
     let peek = J::Null;
+    // force the defaults of whatever nobody set (a *use*, as the library itself would do), so that the
+    // observations below cannot themselves become the first setter
+    let _ = GenericDatumReader::builder(&Schema::Bytes).build().and_then(|rd| rd.read_value(&mut &[6u8, 1, 2, 3][..]));
     let mut obs = Vec::new();
     for round in 0..3 {
         let lim = apache_avro::util::max_allocation_bytes(777 + round);
@@ -250,12 +258,15 @@ pub fn run(plan_path: &str) -> i32 {
         sweep.push(json!({"guard": "string", "declared": declared, "r": size_probe(&Schema::String, &dv, false)}));
         sweep.push(json!({"guard": "serde-bytes", "declared": declared, "r": size_probe(&Schema::Bytes, &dv, true)}));
         sweep.push(json!({"guard": "serde-string", "declared": declared, "r": size_probe(&Schema::String, &dv, true)}));
-        // big-decimal: outer bytes hold an inner length
+        // big-decimal: outer bytes hold an inner length (the outer length itself must be within the limit)
         let inner = dv.clone();
+        if inner.len() <= w {
         let mut outer = zigzag_varint(inner.len() as i64);
         outer.extend_from_slice(&inner);
         sweep.push(json!({"guard": "big-decimal-inner", "declared": declared, "r": size_probe(&bigdec, &outer, false)}));
-        // container block size
+        }
+        // container block size (the header's own strings must fit the limit)
+        if w >= 32 {
         let mut file = b"Obj\x01".to_vec();
         file.extend_from_slice(&[2, 22]);
         file.extend_from_slice(b"avro.schema");
@@ -273,6 +284,7 @@ pub fn run(plan_path: &str) -> i32 {
             Ok(())
         });
         sweep.push(json!({"guard": "container-block-size", "declared": declared, "r": classify(r)}));
+        }
         // snappy declared uncompressed length
         let mut sn = Vec::new();
         let mut x = *d as u64;
